@@ -60,6 +60,7 @@ fn err_whole(e: NErr) -> Whole {
     Whole {
         out: NOut::err(e),
         pay: NPay::none(),
+        acc: Vec::new(),
         budget_exceeded: false,
     }
 }
